@@ -84,6 +84,10 @@ class StepLimit(Exception):
     pass
 class Infeasible(Exception):
     pass
+class Cut(Exception):
+    """exploration of this path deliberately stopped by a harness hook (state in .info)"""
+    def __init__(self, info):
+        Exception.__init__(self, "cut"); self.info = info
 class Violation(Exception):
     """a property obligation refuted by the solver on this path"""
     def __init__(self, msg, info=None):
@@ -344,6 +348,7 @@ class Exec:
         self.prog = prog
         self.models = models
         self.max_steps = max_steps
+        self.hooks = {}
         self.reset([])
 
     def reset(self, prefix):
@@ -579,6 +584,10 @@ class Exec:
     def run(self, f, args):
         if f.kind == "constval":
             return self.const_value(f.src, f.ret)
+        if self.hooks:
+            hk = self.hooks.get(f.rawname)
+            if hk is not None:
+                hk(self, f, args)
         self.depth += 1
         if self.depth > 400:
             raise StepLimit("recursion depth")
